@@ -1164,7 +1164,7 @@ class Array:
         qtotal = self.chinfo.make_valid(self.qtotal + leg.get_charge(qi))
         extended = Array(legs, self.dtype, qtotal)
         extended._labels = labels
-        slices = [slice(None, None)] * self.rank
+        slices = [slice(None, None)] * (self.rank + 1)
         slices[axis] = i
         extended[tuple(slices)] = self  # use existing implementation
         return extended
